@@ -1,7 +1,7 @@
 //! `find NOW CWD ARGS`: find_main in-process with captured output.
 //! NOW: "-" (real clock) or seconds[.nanos] since the epoch; CWD: "-" or hex path; ARGS: "~" or
 //! comma-separated hex strings (without argv[0]).
-//! Result: "<exit> <stdout hex> <stderr hex, first 600 bytes>" or "panic <stdout hex> <stderr hex>".
+//! Result: "<exit> <stdout hex> <stderr hex, first 600 bytes> <number of stderr lines beginning with Error>" or "panic <stdout hex> <stderr hex>".
 use crate::util::{hex, unhex};
 use findutils::find::{find_main, Dependencies};
 use std::cell::RefCell;
@@ -48,15 +48,18 @@ fn stderr_file() -> u64 {
     })
 }
 
-fn stderr_since(pos: u64) -> Vec<u8> {
+/// what was written to standard error since `pos`: the first 600 bytes, and the number of lines that begin with "Error" or "Failed to"
+fn stderr_since(pos: u64) -> (Vec<u8>, usize) {
     ERRFILE.with(|e| {
         let mut e = e.borrow_mut();
         let f = e.as_mut().unwrap();
         let mut buf = vec![];
         f.seek(SeekFrom::Start(pos)).unwrap();
-        let _ = f.take(600).read_to_end(&mut buf);
+        let _ = f.read_to_end(&mut buf);
         f.seek(SeekFrom::End(0)).unwrap();
-        buf
+        let diagnostics = buf.split(|&b| b == b'\n').filter(|l| l.starts_with(b"Error") || l.starts_with(b"Failed to")).count();
+        buf.truncate(600);
+        (buf, diagnostics)
     })
 }
 
@@ -91,13 +94,13 @@ pub fn handle(words: &[&str]) -> String {
     let pos = stderr_file();
     let refs: Vec<&str> = argv.iter().map(String::as_str).collect();
     let code = std::panic::catch_unwind(std::panic::AssertUnwindSafe(|| find_main(&refs, &deps)));
-    let err = stderr_since(pos);
+    let (err, diagnostics) = stderr_since(pos);
     let out = match deps.out.try_borrow() {
         Ok(o) => hex(&o),
         Err(_) => "-".into(),
     };
     match code {
-        Ok(c) => format!("{} {} {}", c, out, hex(&err)),
+        Ok(c) => format!("{} {} {} {}", c, out, hex(&err), diagnostics),
         Err(_) => format!("panic {} {}", out, hex(&err)),
     }
 }
